@@ -85,6 +85,11 @@ def cases(ctx):
         vals = [None if rng.random() < p_none else (rng.choice(I32) if rng.random() < 0.5 else rng.randint(-(2**31), 2**31 - 1))
                 for _ in range(ln)]
         yield {"kind": "ret_arr", "address": pick(rng, I32), "values": vals}
+    # entries that are integers but not builtin ints (a simulator backend hands measurement outcomes back as numpy scalars)
+    for ty in ("int64", "int32", "uint8", "bool_"):
+        for ln in (1, 6, 40):
+            if mine():
+                yield {"kind": "ret_arr_typed", "address": pick(rng, I32), "dtype": ty, "seed": rng.randrange(2**31), "length": ln}
     # long arrays (an entanglement-result array has 10 entries per pair): lengths around and beyond 2^16, by seed
     for ln in ([65535, 65536, 65537, 70000] if ctx.quick else [65535, 65536, 65537, 70000, 2**17 + 1, 2**18, 2**20 + 5]):
         if mine():
@@ -158,7 +163,31 @@ def _long_array(ctx, case):
     ctx.case(case, True)
 
 
+def _typed_array(ctx, case):
+    import random
+    import numpy as np
+    from netqasm.backend import messages as M
+    r = random.Random(case["seed"])
+    ty = getattr(np, case["dtype"])
+    lo, hi = {"int64": (-2**31, 2**31 - 1), "int32": (-2**31, 2**31 - 1), "uint8": (0, 255), "bool_": (0, 1)}[case["dtype"]]
+    plain = [None if r.random() < 0.3 else r.choice([lo, hi, 0, 1, r.randint(lo, hi)]) for _ in range(case["length"])]
+    vals = [None if v is None else ty(v) for v in plain]
+    ctx.count("typed_arrays_roundtripped")
+    try:
+        back = M.deserialize_return_msg(bytes(M.ReturnArrayMessage(address=case["address"], values=list(vals))))
+    except Exception:
+        ctx.count("typed_arrays_refused_loudly")      # refusing a non-builtin integer with an error is not a silent alteration
+        return ctx.case(case, True)
+    if back.values != plain:
+        i = next((j for j, (a, b) in enumerate(zip(plain, back.values)) if a != b), None)
+        ctx.fail(case, f"ret_arr with numpy.{case['dtype']} entries: entry {i} = {plain[i] if i is not None else '?'!r} comes back as "
+                       f"{back.values[i] if i is not None and i < len(back.values) else None!r}")
+    ctx.case(case, True)
+
+
 def run_case(ctx, case):
+    if case["kind"] == "ret_arr_typed":
+        return _typed_array(ctx, case)
     if case["kind"] == "ret_arr_long":
         return _long_array(ctx, case)
     from netqasm.backend import messages as M
